@@ -321,7 +321,7 @@ class ConvexPolygon(GeoBody):
         return hash(
             (
                 "ConvexPolygon",
-                round(self._get_point_hash_sum(), SIG_FIGURES),
+                round(self._get_point_hash_sum(), get_sig_figures()),
                 hash(self.plane) + hash(-self.plane),
                 hash(self.plane) * hash(-self.plane),
             )
